@@ -301,6 +301,15 @@ class ModelBehaviour(RandomBehaviour):
         return Reply(data)
 
 
+EXC_TYPES = {"RuntimeError": RuntimeError, "StopIteration": StopIteration, "KeyError": KeyError, "ValueError": ValueError,
+             "ZeroDivisionError": ZeroDivisionError, "StopAsyncIteration": StopAsyncIteration, "AttributeError": AttributeError}
+
+
+def make_exc(name, msg):
+    """The exception an in-process simulator raises (any Exception type is a failure of the simulator)."""
+    return EXC_TYPES.get(name or "RuntimeError", RuntimeError)(msg)
+
+
 class FaultPlanBehaviour(RandomBehaviour):
     """Compliant random behaviour with ONE simulator failure (C14 families).
     plan = {"sid", "req": "step"|"get_data"|"setup_done", "k", "kind"}, kind in
@@ -320,7 +329,7 @@ class FaultPlanBehaviour(RandomBehaviour):
             if pl["kind"] in ("eof", "reset", "eof_idle"):
                 rep.fault = pl["kind"]
             else:
-                rep.exc = RuntimeError(f"injected failure in {p.sid}.{p.kind}")
+                rep.exc = make_exc(pl.get("exc"), f"injected failure in {p.sid}.{p.kind}")
         return rep
 
 
